@@ -19,7 +19,7 @@ var (
 	poolAzp    = []string{"client-1", "web", "client-2"}
 	poolClaimK = []string{"[group]", "[groups]", "[realm][role]", "[scope]", "[a][b][c]", "[tenant]", "[org][unit]", "[roles]", "[x-y]", "[email]"}
 	// validator-accepted keys that reach the fallbacks / error path of extractNameInNestedBrackets
-	oddClaimK = []string{"[a[b]]", ".x[a]", "[a]b[c]", "[a][b", "x[a][b]"}
+	oddClaimK  = []string{"[a[b]]", ".x[a]", "[a]b[c]", "[a][b", "x[a][b]"}
 	poolClaimV = []string{"admin", "dev", "ops", "read", "write"}
 )
 
@@ -227,6 +227,27 @@ func (g *genCtx) genReq(http bool) string {
 	}
 	if !http {
 		t = append(t, "http=0")
+		// raw TCP connections carry dynamic metadata too (network filters): experimental.envoy.filters.network.*
+		// conditions are expressible on TCP and must be judged with positive matches as well
+		if g.phase3 {
+			var mf, mp, mt, mv []string
+			for _, k := range g.used["expk"] {
+				f, key, _ := strings.Cut(strings.TrimSuffix(strings.TrimPrefix(k, "experimental."), "]"), "[")
+				if r.Chance(1, 4) || strings.Contains(strings.Join(mf, ","), f) {
+					continue
+				}
+				v := g.mutate(g.pickUsed("claimv", poolClaimV))
+				mf, mp = append(mf, f), append(mp, key)
+				if r.Chance(1, 2) {
+					mt, mv = append(mt, "s"), append(mv, v)
+				} else {
+					mt, mv = append(mt, "l"), append(mv, strings.Join([]string{wire.Pick(r, poolClaimV), v}, "|"))
+				}
+			}
+			if len(mf) > 0 {
+				t = append(t, "mf="+wire.EncList(mf), "mp="+wire.EncList(mp), "mt="+wire.EncList(mt), "mv="+wire.EncList(mv))
+			}
+		}
 		return strings.Join(t, " ")
 	}
 	t = append(t, "http=1")
